@@ -5,7 +5,9 @@ set -u
 P=$1; K=$2; SRC=$3
 WT=/tmp/confirm_${P}_m${K}
 DST=/verif/seeded/${P}-m${K}
-rm -rf "$WT"; git -C /repo worktree prune; git -C /repo worktree add -q --detach "$WT" HEAD || exit 2
+rm -rf "$WT"
+# (worktree bookkeeping of /repo is serialised: several confirmations may run side by side)
+flock /tmp/.verif_worktree.lock git -C /repo worktree add -q -f --detach "$WT" HEAD || exit 2
 mkdir -p "$DST"; cp "$SRC/patch.diff" "$SRC/demo.py" "$DST/"; [ -f "$SRC/notes.md" ] && cp "$SRC/notes.md" "$DST/"
 cd "$WT"; export PYTHONPATH="$WT"
 mkdir -p _seed && cp "$SRC/demo.py" _seed/demo.py
@@ -30,4 +32,4 @@ meta = {"property": P, "seed": f"{P}-m{K}", "origin": "independent sub-agent giv
 json.dump(meta, open(os.path.join(dst, "meta.json"), "w"), indent=1)
 print(json.dumps({k: meta[k] for k in ("seed", "patch_applies", "demo_exit_clean", "demo_exit_with_patch", "existing_tests_with_patch")}))
 PY
-cd /; git -C /repo worktree remove --force "$WT"; rm -f /tmp/confirm_${P}_${K}_*.txt
+cd /; flock /tmp/.verif_worktree.lock git -C /repo worktree remove --force "$WT"; rm -f /tmp/confirm_${P}_${K}_*.txt
